@@ -96,8 +96,11 @@ def oracle(case, out):
     # dropped, popped afterwards, on a resource that had unread data before that poll, must be Ready
     # (a poll may return early after delivering thread-pool results: require two polls)
     polls = [i for i, st in enumerate(steps) if st[0] == 5 and st[1] >= 5]
-    last_poll = polls[-2] if len(polls) >= 2 and not any(st[0] in (1, 2, 3, 4, 12, 14, 15, 18) for st in steps[polls[-2]:]) else None
-    if last_poll is not None and not any(st[0] == 10 for st in steps) and case[0] == 0:
+    # the polling driver serves one queued operation per descriptor and poll: it needs as many polls
+    # as there are receives, plus the two above
+    need = 2 if case[0] == 0 else 2 + sum(1 for st in steps if st[0] in (1, 18))
+    last_poll = polls[-need] if len(polls) >= need and not any(st[0] in (1, 2, 3, 4, 12, 14, 15, 18) for st in steps[polls[-need]:]) else None
+    if last_poll is not None and not any(st[0] == 10 for st in steps):
         slot_of_step, ns = {}, 0
         touched = set()
         for i, (o, a, b) in enumerate(steps):
